@@ -14,7 +14,7 @@ class C16(PureCheck):
     rule = ("str and FmtStr inputs: layouts of <=2 runs of length 0..3 (quick, + sampled 3-run layouts with runs up to "
             "length 4) / all <=2 runs of length 0..3 + 60k sampled 3-run layouts + 40k sampled layouts with runs up to length 4 (thorough) over "
             "{x, y, space, tab, newline} x {plain, red, bold+on_blue} - formatting changing inside words and inside "
-            "whitespace, empty runs with their own formatting inside/at the edge of whitespace and words, leading/trailing/multiple whitespace, no words at all - and columns 1..6; validated by TLC against "
+            "whitespace, empty runs with their own formatting inside/at the edge of whitespace and words, leading/trailing/multiple whitespace, non-ASCII whitespace (U+00A0, U+2028, U+3000, U+2003, 0x1C), no words at all - and columns 1..6; validated by TLC against "
             "the greedy reference wrap of Wrap.tla. distinct_nontrivial = distinct (layout, columns) with >=2 words or a "
             "word longer than the line")
     exhaustive = {"quick": False, "thorough": False}
@@ -46,6 +46,14 @@ class C16(PureCheck):
                         pool.append([[list(left), list(a1)], [[], list(a0)], [list(right), list(a1)]])
                         if a0 != a1:
                             pool.append([[list(left), list(a1)], [[], list(a0)], [list(right), list(a0)]])
+        # whitespace outside ASCII (no-break space, line separator, ideographic space, information separator)
+        ws = [160, 8232, 12288, 28, 8195]
+        for k in range(200 if tier == "quick" else 4000):
+            w1, w2 = rng.choice(ws), rng.choice(ws + [32])
+            texts = [[120, 121, w1, 120], [120, w1, w2, 121, 121], [w1, 120, 121, 32, 121], [120, 121, w1], [w1, w2], [120, w1, 121, w2, 120, 121, 121]]
+            t = texts[k % len(texts)]
+            cut = rng.randrange(0, len(t) + 1)
+            pool.append([[t[:cut], list(rng.choice(ATTS))], [t[cut:], list(rng.choice(ATTS))]])
         k = 0
         for f in pool:
             for c in range(1, 7):
